@@ -75,6 +75,7 @@ FirstDiff(key, g, zero) ==
     IF ~zero /\ g.priv # key.priv THEN "is-private"
     ELSE IF g.priv /\ key.priv /\ g.k # key.k THEN "private-key"
     ELSE IF g.P # SerP(key.K) THEN "public-key"
+    ELSE IF g.Pu # SerP(key.K) /\ g.Pu # SerU(key.K) THEN "public-key-encoding"
     ELSE IF g.c # key.c THEN "chain-code"
     ELSE IF g.depth # key.depth THEN "depth"
     ELSE IF g.fp # key.fp THEN "parent-fingerprint"
@@ -93,13 +94,22 @@ NeedsOf(rs) == Concat([i \in 1..Len(rs) |-> IF rs[i].st = "need" THEN rs[i].need
 Chain(F, r, D) ==
     LET pp    == ParsePath(Toks(r))
         priv  == Mode(r, pp)
-        plan  == [Plan(priv, pp.elems, D) EXCEPT !.ok = @ /\ ApiOk(r, priv)]
         n     == Len(pp.elems)
         all   == r.mids \o <<r.got>>
+        \* the object a step is made on: the receiver, then the answers to the prefixes
+        pobj(j) == IF j = 1 THEN r.start.obs ELSE all[j - 1]
+        \* (named deviation only) that object presents its key uncompressed
+        unc(j)  == DevUncomp \in D /\ pobj(j).ok /\ ~pobj(j).comp
+        plan0 == Plan(priv, pp.elems, D)
+        plan  == [plan0 EXCEPT !.ok = @ /\ ApiOk(r, priv),
+                               !.fired = @ \cup (IF plan0.ok /\ Len(r.mids) = n - 1 /\ \E j \in 1..n : unc(j)
+                                                 THEN {DevUncomp} ELSE {})]
         s0    == StartKey(F, r.start)
-        start == IF s0.st # "ok" THEN s0 ELSE Ok(IF priv THEN s0.val ELSE Neuter(s0.val))
+        \* the receiver after everything it was asked before the call (r.hist): the same key
+        start == IF s0.st # "ok" THEN s0
+                 ELSE Ok(AfterHistory(IF priv THEN s0.val ELSE Neuter(s0.val), r.hist))
         prev(j) == IF j = 1 THEN start ELSE IF all[j - 1].ok THEN FromObsM(F, all[j - 1], priv) ELSE Fail
-        exp(j)  == LET p == prev(j) IN IF p.st # "ok" THEN p ELSE ApplyStep(F, p.val, plan.steps[j])
+        exp(j)  == LET p == prev(j) IN IF p.st # "ok" THEN p ELSE ApplyStepU(F, p.val, plan.steps[j], unc(j))
         needs == IF ~plan.ok \/ n = 0 THEN NeedsOf(<<s0>>)
                  ELSE NeedsOf(<<s0>> \o [j \in 1..n |-> prev(j)] \o [j \in 1..n |-> exp(j)])
         RECURSIVE walk(_, _)
@@ -123,7 +133,8 @@ Chain(F, r, D) ==
             ELSE IF ~plan.ok THEN (IF r.got.ok THEN [c |-> "must-fail-but-returned-a-key", at |-> n] ELSE [c |-> "", at |-> 0])
             ELSE IF n = 0 THEN (IF ~r.got.ok THEN [c |-> "refused-a-valid-path", at |-> 0]
                                 ELSE [c |-> FirstDiff(start.val, r.got, TRUE), at |-> 0])
-            ELSE IF Len(r.mids) # n - 1 THEN [c |-> "record-malformed", at |-> 0]
+            ELSE IF Len(r.mids) # n - 1 \/ \E i \in 1..Len(r.hist) : r.hist[i] \notin Observers
+                 THEN [c |-> "record-malformed", at |-> 0]
             ELSE walk(1, FALSE)
     IN [plan |-> plan, needs |-> needs, n |-> n,
         v    |-> IF needs # <<>> THEN [c |-> "need", at |-> 0] ELSE verdict,
@@ -134,8 +145,10 @@ Chain(F, r, D) ==
 (* where the specification's own argument equals the one it was asked for.                                       *)
 ObsQs(o) == IF ~o.ok THEN <<>>
             ELSE (IF o.priv THEN <<QMulG(o.k)>> ELSE <<QPoint(o.P)>>) \o <<QHash160(o.P)>>
+                 \o (IF o.comp THEN <<>> ELSE <<QHash160(o.Pu)>>)
 StepQs(o, st, priv) == IF ~o.ok \/ st.act = "err" THEN <<>>
                        ELSE <<QHmac(o.c, (IF priv /\ st.hard /\ o.priv THEN <<0>> \o o.k ELSE o.P) \o st.idx)>>
+                            \o (IF o.comp THEN <<>> ELSE <<QHmac(o.c, o.Pu \o st.idx)>>)
 WifQs(g, net, wt) == IF ~g.ok \/ ~KnownVersion(net, wt) \/ g.depth > 255 THEN <<>>
                      ELSE LET ver == Versions[net][wt] body == <<g.depth>> \o g.fp \o g.idx \o g.c IN
                           <<QSha256d(ver.pub \o body \o g.P)>> \o
